@@ -23,6 +23,7 @@
 #include <time.h>
 
 #include "numeric.h"
+#include "verif_hooks.h"
 #include "vector.h"
 #include "matrix.h"
 #include "interpolate.h"
@@ -56,7 +57,9 @@ uint32_t XOR128_SEED = 0;
 
 void srand_(uint32_t seed)
 {
+  VERIF_RNG(0, &XOR128_SEED, seed);
   XOR128_SEED = generate_seed(seed);
+  VERIF_RNG(1, &XOR128_SEED, XOR128_SEED);
 }
 
 double rand_()
@@ -64,11 +67,14 @@ double rand_()
   struct xorshift128_state state;
   if(XOR128_SEED  == 0)
     XOR128_SEED = time(NULL);
+  VERIF_RNG(2, &XOR128_SEED, 0);
   state.x[0] = XOR128_SEED;
   state.x[1] = XOR128_SEED ^ 0x5a7b96158bd42e27ULL;
   state.x[2] = XOR128_SEED ^ 0x3a8e9f2baf7e592bULL;
   state.x[3] = XOR128_SEED ^ 0x0b243e4b4b2aa8d3ULL;
+  VERIF_RNG(3, &XOR128_SEED, state.x[0]);
   XOR128_SEED = generate_seed(XOR128_SEED);
+  VERIF_RNG(4, &XOR128_SEED, XOR128_SEED);
   return xorshift128(&state);
 }
 
@@ -77,11 +83,14 @@ int randInt(int low, int high)
   struct xorshift128_state state;
   if(XOR128_SEED  == 0)
     XOR128_SEED = time(NULL);
+  VERIF_RNG(2, &XOR128_SEED, 0);
   state.x[0] = XOR128_SEED;
   state.x[1] = XOR128_SEED ^ 0x5a7b96158bd42e27ULL;
   state.x[2] = XOR128_SEED ^ 0x3a8e9f2baf7e592bULL;
   state.x[3] = XOR128_SEED ^ 0x0b243e4b4b2aa8d3ULL;
+  VERIF_RNG(3, &XOR128_SEED, state.x[0]);
   XOR128_SEED = generate_seed(XOR128_SEED);
+  VERIF_RNG(4, &XOR128_SEED, XOR128_SEED);
   return (int) (xorshift128(&state) % ((high) - low) + low);
 }
 
@@ -93,11 +102,14 @@ double randDouble(double low, double high)
   struct xorshift128_state state;
   if(XOR128_SEED  == 0)
     XOR128_SEED = time(NULL);
+  VERIF_RNG(2, &XOR128_SEED, 0);
   state.x[0] = XOR128_SEED;
   state.x[1] = XOR128_SEED ^ 0x5a7b96158bd42e27ULL;
   state.x[2] = XOR128_SEED ^ 0x3a8e9f2baf7e592bULL;
   state.x[3] = XOR128_SEED ^ 0x0b243e4b4b2aa8d3ULL;
+  VERIF_RNG(3, &XOR128_SEED, state.x[0]);
   XOR128_SEED = generate_seed(XOR128_SEED);
+  VERIF_RNG(4, &XOR128_SEED, XOR128_SEED);
   double range = (high - low);
   double div = 4294967296.0 / range;
   return low + (xorshift128(&state) / div);
